@@ -203,15 +203,24 @@ theorem markUpdate_frame {γ} (g : St → γ)
 @[simp, c09_frame] theorem attachConv_queue (s : St) (n c : String) : ((attachConv s n c).1).queue = s.queue := by unfold attachConv; frame
 @[simp, c09_frame] theorem attachConv_jImport (s : St) (n c : String) : ((attachConv s n c).1).jImport = s.jImport := by unfold attachConv; frame
 @[simp, c09_frame] theorem attachConv_convs (s : St) (n c : String) : ((attachConv s n c).1).convs = s.convs := by unfold attachConv; frame
-@[simp, c09_frame] theorem detachConv_tag (s : St) (n c : String) : (detachConv s n c).tag = s.tag := by unfold detachConv; frame
-@[simp, c09_frame] theorem detachConv_jTag (s : St) (n c : String) : (detachConv s n c).jTag = s.jTag := by unfold detachConv; frame
-@[simp, c09_frame] theorem detachConv_merge (s : St) (n c : String) : (detachConv s n c).merge = s.merge := by unfold detachConv; frame
-@[simp, c09_frame] theorem detachConv_jMerge (s : St) (n c : String) : (detachConv s n c).jMerge = s.jMerge := by unfold detachConv; frame
-@[simp, c09_frame] theorem detachConv_convert (s : St) (n c : String) : (detachConv s n c).convert = s.convert := by unfold detachConv; frame
-@[simp, c09_frame] theorem detachConv_jConv (s : St) (n c : String) : (detachConv s n c).jConv = s.jConv := by unfold detachConv; frame
-@[simp, c09_frame] theorem detachConv_queue (s : St) (n c : String) : (detachConv s n c).queue = s.queue := by unfold detachConv; frame
-@[simp, c09_frame] theorem detachConv_jImport (s : St) (n c : String) : (detachConv s n c).jImport = s.jImport := by unfold detachConv; frame
-@[simp, c09_frame] theorem detachConv_convs (s : St) (n c : String) : (detachConv s n c).convs = s.convs := by unfold detachConv; frame
+-- CHANGED (dropped): frame lemmas of `outputDropped` (it changes `tags`, `tag`, `jTag`, `used`, the masks, `diverged`, `badChoice`)
+@[simp, c09_frame] theorem outputDropped_merge (s : St) (ch : Option String) : (outputDropped s ch).merge = s.merge := by unfold outputDropped; frame
+@[simp, c09_frame] theorem outputDropped_jMerge (s : St) (ch : Option String) : (outputDropped s ch).jMerge = s.jMerge := by unfold outputDropped; frame
+@[simp, c09_frame] theorem outputDropped_convert (s : St) (ch : Option String) : (outputDropped s ch).convert = s.convert := by unfold outputDropped; frame
+@[simp, c09_frame] theorem outputDropped_jConv (s : St) (ch : Option String) : (outputDropped s ch).jConv = s.jConv := by unfold outputDropped; frame
+@[simp, c09_frame] theorem outputDropped_queue (s : St) (ch : Option String) : (outputDropped s ch).queue = s.queue := by unfold outputDropped; frame
+@[simp, c09_frame] theorem outputDropped_jImport (s : St) (ch : Option String) : (outputDropped s ch).jImport = s.jImport := by unfold outputDropped; frame
+@[simp, c09_frame] theorem outputDropped_convs (s : St) (ch : Option String) : (outputDropped s ch).convs = s.convs := by unfold outputDropped; frame
+@[simp, c09_frame] theorem outputDropped_toconv (s : St) (ch : Option String) : (outputDropped s ch).toconv = s.toconv := by unfold outputDropped; frame
+-- CHANGED (dropped): `detachConv_tag`, `detachConv_jTag` removed (false now: `detachConv` may start a tagging job);
+-- the remaining ones take the tagging choice
+@[simp, c09_frame] theorem detachConv_merge (s : St) (n c : String) (ch : Option String := none) : (detachConv s n c ch).merge = s.merge := by unfold detachConv; frame  -- CHANGED (dropped)
+@[simp, c09_frame] theorem detachConv_jMerge (s : St) (n c : String) (ch : Option String := none) : (detachConv s n c ch).jMerge = s.jMerge := by unfold detachConv; frame  -- CHANGED (dropped)
+@[simp, c09_frame] theorem detachConv_convert (s : St) (n c : String) (ch : Option String := none) : (detachConv s n c ch).convert = s.convert := by unfold detachConv; frame  -- CHANGED (dropped)
+@[simp, c09_frame] theorem detachConv_jConv (s : St) (n c : String) (ch : Option String := none) : (detachConv s n c ch).jConv = s.jConv := by unfold detachConv; frame  -- CHANGED (dropped)
+@[simp, c09_frame] theorem detachConv_queue (s : St) (n c : String) (ch : Option String := none) : (detachConv s n c ch).queue = s.queue := by unfold detachConv; frame  -- CHANGED (dropped)
+@[simp, c09_frame] theorem detachConv_jImport (s : St) (n c : String) (ch : Option String := none) : (detachConv s n c ch).jImport = s.jImport := by unfold detachConv; frame  -- CHANGED (dropped)
+@[simp, c09_frame] theorem detachConv_convs (s : St) (n c : String) (ch : Option String := none) : (detachConv s n c ch).convs = s.convs := by unfold detachConv; frame  -- CHANGED (dropped)
 @[simp, c09_frame] theorem markUpdate_tag (s : St) (n : String) (a d : List Nat) : ((markUpdate s n a d).1).tag = s.tag :=
   markUpdate_frame (·.tag) (fun _ _ => rfl) (fun _ _ => rfl) (fun _ _ => rfl) (fun _ _ => rfl) s n a d
 @[simp, c09_frame] theorem markUpdate_jTag (s : St) (n : String) (a d : List Nat) : ((markUpdate s n a d).1).jTag = s.jTag :=
